@@ -123,8 +123,10 @@ def census(F):
 	_CACHE[F.dir] = out
 	return out
 
-def rule(F, rule_id, file_res, floor=1):
+def rule(F, rule_id, file_res, floor=1, ty_re=None):
 	cz = census(F)
+	if ty_re:
+		cz = [x for x in cz if re.search(ty_re, x[4])]
 	out = []
 	n = 0
 	seen = set()
@@ -147,15 +149,20 @@ def rule(F, rule_id, file_res, floor=1):
 
 SCOPE = {
 	'C01': ([r'ln/channel\.rs$'], 30),
-	'C02': ([r'ln/channelmanager\.rs$', r'ln/channel\.rs$'], 80),
-	'C03': ([r'ln/channelmanager\.rs$', r'ln/outbound_payment\.rs$', r'ln/channel\.rs$'], 80),
-	'C04': ([r'ln/channelmanager\.rs$'], 50),
+	'C02': ([r'ln/channelmanager\.rs$', r'ln/channel\.rs$'], 40),
+	'C03': ([r'ln/channelmanager\.rs$', r'ln/outbound_payment\.rs$', r'ln/channel\.rs$'], 40),
+	'C04': ([r'ln/channelmanager\.rs$'], 20),
 	'C06': ([r'chain/channelmonitor\.rs$', r'chain/onchaintx\.rs$', r'chain/package\.rs$'], 10),
 	'C07': ([r'chain/channelmonitor\.rs$', r'chain/onchaintx\.rs$', r'chain/package\.rs$', r'util/sweep\.rs$'], 10),
-	'C09': ([r'ln/channelmanager\.rs$', r'ln/channel\.rs$', r'chain/chainmonitor\.rs$'], 80),
+	'C09': ([r'ln/channelmanager\.rs$', r'ln/channel\.rs$', r'chain/chainmonitor\.rs$'], 40),
 	'C10': ([r'ln/channelmanager\.rs$'], 50),
 }
 
+_HTLC = r'HTLCSource|HTLCFailReason|PendingHTLCInfo|PendingAddHTLCInfo|HTLCForwardInfo|PaymentPreimage|HTLCDestination|PaymentClaimDetails|events::Event\b|ShutdownResult|MonitorRestoreUpdates'
+_MON = r'ChannelMonitorUpdate|MonitorEvent|MessageSendEvent|MonitorRestoreUpdates|ReestablishResponses|ShutdownResult'
+_CLAIM = r'PackageTemplate|ClaimEvent|BumpTransactionEvent|SpendableOutputDescriptor|events::Event\b|MonitorEvent|HTLCSource|PaymentPreimage'
+TYPES = {'C01': None, 'C02': _HTLC, 'C03': _HTLC, 'C04': _HTLC, 'C06': _CLAIM, 'C07': _CLAIM, 'C09': _MON, 'C10': None}
+
 def for_property(F, pid, rule_id):
 	res, floor = SCOPE[pid]
-	return rule(F, rule_id, res, floor)
+	return rule(F, rule_id, res, floor, TYPES.get(pid))
